@@ -6,6 +6,7 @@ import (
 	"go/token"
 	"go/types"
 	"os"
+	"runtime/debug"
 	"sort"
 	"strings"
 
@@ -338,10 +339,25 @@ type FuncResult struct {
 }
 
 // verifyFunc generates the obligations of one function under contract.
-func verifyFunc(p *Program, cx *Contracts, cfg *PropConfig, ct *Contract) *FuncResult {
+func verifyFunc(p *Program, cx *Contracts, cfg *PropConfig, ct *Contract) (res *FuncResult) {
 	e := newEnv(p, cx, cfg)
 	fn := ct.Fn
-	res := &FuncResult{Key: ct.PkgPath + "." + ct.Key, Env: e}
+	res = &FuncResult{Key: ct.PkgPath + "." + ct.Key, Env: e}
+	// a construct the symbolic executor cannot handle must end as "undecided" for this function, never as a crash
+	// of the whole check (and never as a pass)
+	defer func() {
+		if r := recover(); r != nil {
+			stack := string(debug.Stack())
+			if i := strings.Index(stack, "panic("); i >= 0 {
+				stack = stack[i:]
+			}
+			lines := strings.Split(stack, "\n")
+			if len(lines) > 8 {
+				lines = lines[:8]
+			}
+			res.Err = fmt.Errorf("internal error of the verifier while executing %s: %v [%s]", ct.Key, r, strings.Join(lines, " | "))
+		}
+	}()
 	e.curName = shortPkg(ct.PkgPath) + "." + ct.Key
 	if ct.Trusted {
 		res.IsTrusted = true
@@ -396,7 +412,14 @@ func verifyFunc(p *Program, cx *Contracts, cfg *PropConfig, ct *Contract) *FuncR
 	old := st.clone()
 	e.oldState = old
 	e.topVars = vars
-	outs := e.execFunc(st, fn, args, nil, 0)
+	var outs []Out
+	if ct.viaContract != nil {
+		// refinement obligation of the lemma layer: the function is represented by its own contract (havoc of its
+		// frame + its proved ensures) and the ensures of `ct` - the clauses of a ghost transition - must follow
+		outs = e.applyContract(st, ct.viaContract, args, nil, nil)
+	} else {
+		outs = e.execFunc(st, fn, args, nil, 0)
+	}
 	if e.err != nil {
 		res.Err = e.err
 		return res
